@@ -51,6 +51,39 @@ def p_reorder(b, rng):
     return True
 
 
+def p_reorder_contractions(b, rng):
+    """only the contractions of the generally contracted shells in another order (primitives and shells stay where they are)"""
+    done = False
+    for el in b['elements'].values():
+        for sh in el.get('electron_shells', []):
+            if len(sh['angular_momentum']) == 1 and len(sh['coefficients']) >= 2:
+                sh['coefficients'] = sh['coefficients'][1:] + sh['coefficients'][:1] if rng.random() < 0.5 else sh['coefficients'][::-1]
+                done = True
+    return done
+
+
+def p_zero_to_nonzero(b, rng):
+    """a zero coefficient becomes non-zero (an exact zero has no relative neighbourhood: nothing but zero is close to it)"""
+    cands = [(col, i) for el in b['elements'].values() for sh in el.get('electron_shells', []) for col in sh['coefficients']
+             for i, c in enumerate(col) if Decimal(c.strip()) == 0]
+    if not cands:
+        return False
+    col, i = rng.choice(cands)
+    col[i] = rng.choice(['0.25', '1.0E-12', '-3.5'])
+    return True
+
+
+def p_nonzero_to_zero(b, rng):
+    """a non-zero coefficient of a contraction with several becomes zero"""
+    cands = [(col, i) for el in b['elements'].values() for sh in el.get('electron_shells', []) for col in sh['coefficients']
+             for i, c in enumerate(col) if Decimal(c.strip()) != 0 and sum(1 for x in col if Decimal(x.strip()) != 0) >= 2]
+    if not cands:
+        return False
+    col, i = rng.choice(cands)
+    col[i] = '0.0'
+    return True
+
+
 def p_renotate(b, rng):
     for el in b['elements'].values():
         for sh in el.get('electron_shells', []):
@@ -237,7 +270,8 @@ def p_ecp_drop(b, rng):
 
 TOL = Fraction(1, 10**6)
 PERTURBATIONS = [
-    ('reorder', p_reorder, True, True), ('renotate', p_renotate, True, True),
+    ('reorder', p_reorder, True, True), ('renotate', p_renotate, True, True), ('reorder-contractions', p_reorder_contractions, True, True),
+    ('zero-to-nonzero', p_zero_to_nonzero, False, False), ('nonzero-to-zero', p_nonzero_to_zero, False, False),
     ('sign-flip', p_sign_flip, False, False),
     ('perturb-above-tol', lambda b, r: p_perturb(b, r, '1.00001'), False, False),
     ('perturb-below-tol', lambda b, r: p_perturb(b, r, '1.0000001'), False, True),
@@ -300,7 +334,7 @@ def pairs_for(ctx, base, label, rng):
             ctx.dist['perturbation-not-applicable'] += 1
             continue
         compare_pair(ctx, base, b, label, pname, want0, wanttol)
-        if pname != 'reorder':
+        if pname not in ('reorder', 'reorder-contractions'):
             report_pair(ctx, base, b, label, pname, want0)
         # the verdict may not depend on which side carries the change
         compare_pair(ctx, b, base, label, pname + ':swapped', want0, wanttol)
